@@ -33,6 +33,8 @@ static vf::json gen_case(vf::Choice& ch, int size) {
     c["defs"] = defs;
     int nt = 2 + ch.draw(7);
     c["threads"] = nt;
+    // resolution errors observed through the deprecated call_error route
+    c["legacy_handler"] = ch.chance(1, 2);
     c["ops"] = 50 + int(ch.draw(std::max(1, size * 32)));
     c["updates"] = 1 + int(ch.draw(50));
     std::vector<std::uint64_t> seeds;
